@@ -495,9 +495,10 @@ PROPS = {
                 "conversion, single-letter names, bool/()/Option/Vec/plain fields, explicit "
                 "argument/positional/switch/flag/req_flag consumers, turbofish, "
                 "fallback/guard/optional/many/some/count/catch/hide/hide_usage/group_help, doc "
-                "comments as help, descr/header/footer blocks, version, tuple structs, unit "
-                "variants, field variants, command variants with custom names and aliases, skipped "
-                "variants) together with the hand-written combinator equivalent produced by an "
+                "comments as help, descr/header/footer blocks and explicit descr/header/footer "
+                "annotations, version, tuple structs, unit variants, field variants, tuple "
+                "variants, command variants with custom names and aliases, skipped variants, "
+                "nested derived enums through external) together with the hand-written combinator equivalent produced by an "
                 "independent implementation of the documented rules. The crate is compiled against "
                 "/repo and both parsers of every type are run on the same vectors (valid lines, "
                 "omissions, duplicates, bad values, wrong-case / underscore / truncated names, "
